@@ -358,6 +358,70 @@ fn two_levels(rep: &mut Report, lists: &[Vec<&'static str>]) {
     }
 }
 
+/// An un-guarded enum without tag / content whose only data-carrying variants are rejected by the target list: what is
+/// left is a unit enum, and it is generated with exactly its accepted variants
+fn rejected_payload_variants(rep: &mut Report, lists: &[Vec<&'static str>]) {
+    let guards = vec![Cfg::Os("a"), Cfg::Os("b"), Cfg::Not(Box::new(Cfg::Os("a"))), Cfg::Not(Box::new(Cfg::Os("c"))), Cfg::Any(vec![Cfg::Os("a"), Cfg::Os("b")]), Cfg::All(vec![Cfg::Feature, Cfg::Not(Box::new(Cfg::Os("b")))])];
+    for t in lists {
+        if t.is_empty() {
+            continue;
+        }
+        let rejected: Vec<&Cfg> = guards.iter().filter(|g| !expect_keep(std::slice::from_ref(*g), t)).collect();
+        if rejected.is_empty() {
+            continue;
+        }
+        let mut stems = Stems::default();
+        let mut rng = Rng::new(31);
+        let mut src = String::new();
+        let mut cases = vec![];
+        for g in &rejected {
+            let (hs, ks, ns, ps) = (stems.fresh(&mut rng), stems.fresh(&mut rng), stems.fresh(&mut rng), stems.fresh(&mut rng));
+            src.push_str(&format!(
+                "#[typeshare]\npub enum {} {{\n    {},\n    #[cfg({})]\n    {}(String),\n    #[cfg({})]\n    {} {{ name: String }},\n}}\n",
+                crate::gen::cap(&hs),
+                crate::gen::cap(&ks),
+                g.render(),
+                crate::gen::cap(&ns),
+                g.render(),
+                crate::gen::cap(&ps)
+            ));
+            cases.push(((*g).clone(), hs, ks, ns, ps));
+        }
+        let files = vec![SrcFile { path: "src/lib.rs".into(), source: src.clone() }];
+        let tos: Vec<String> = t.iter().map(|s| s.to_string()).collect();
+        let out = run_lib(&files, LangId::Ts, &LangCfg::default(), false, &tos);
+        rep.count("library_runs", 1);
+        rep.eval(1);
+        rep.cell(format!("rejected-payload-variants|T{}|{}", t.len(), out.kind()));
+        match &out {
+            LibOutcome::Ok(_) => {
+                let Some(present) = present_stems(out.single().unwrap_or("")) else {
+                    rep.inconclusive("typescript-output-not-parsed", json!({"workload": "rejected-payload-variants"}));
+                    continue;
+                };
+                for (g, hs, ks, ns, ps) in &cases {
+                    rep.count("decisions_rejected_payload_variants", 1);
+                    if !present.contains(hs) || !present.contains(ks) || present.contains(ns) || present.contains(ps) {
+                        rep.violate(
+                            "C13|library|variant|enum-with-rejected-payload-variants|wrong-members".to_string(),
+                            format!("enum whose data variants are guarded by cfg({}) with target list {t:?}: expected the enum with its unit variant only", g.render()),
+                            json!({"cfg": g.render(), "target_os": t, "source": src, "output": out.single()}),
+                        );
+                    }
+                }
+            }
+            LibOutcome::Panic { .. } => rep.inconclusive("typeshare-panic (reported by C07)", json!({"workload": "rejected-payload-variants"})),
+            other => {
+                rep.violate(
+                    "C13|library|variant|enum-with-rejected-payload-variants|not-generated".to_string(),
+                    format!("un-guarded enums whose data variants are all rejected by the target list {t:?} are not generated: {}", other.describe()),
+                    json!({"target_os": t, "source": src, "outcome": other.describe()}),
+                );
+            }
+        }
+    }
+}
+
 pub fn run(ctx: &Ctx) -> (Spec, Report) {
     let lists = target_lists();
     let quick = ctx.tier == crate::report::Tier::Quick;
@@ -503,11 +567,12 @@ pub fn run(ctx: &Ctx) -> (Spec, Report) {
     });
     rep.merge(r2);
     two_levels(&mut rep, &lists);
+    rejected_payload_variants(&mut rep, &lists);
     let _ = std::fs::remove_dir_all(&scratch);
     let spec = Spec {
         level: "exploration",
         rule: format!(
-            "cfg expressions over any/all/not with leaves target_os=a|b|c, feature, unix: all {n3} expressions of depth <= 3 (depth 1 complete, deeper levels pair one deep child with a leaf in both child orders) x all 16 target lists over {{a,b,c,d}} x 5 attachment levels (file level: depth <= 2 in quick), a quarter of the files writing `cfg (` / `cfg<newline>(`; thorough adds all {exhaustive_d4} depth-4 expressions over the reduced alphabet at type level (5 % at the other levels); plus 98 two-level cases (a guarded field inside a guarded struct variant / struct, 7 x 7 guards) x 16 target lists; plus {n_random} random depth-4 expressions incl. two deep children and 1-3 cfg attributes per element, and {n_cli} trees through the real binary with --target-os a b / -t a b / --target-os=a,b / a repeated name in the middle / an empty entry / one -t per name / no option; decision read from generated TypeScript; a cell is distinct by (level, expression shape, |T|, expected decision)"
+            "cfg expressions over any/all/not with leaves target_os=a|b|c, feature, unix: all {n3} expressions of depth <= 3 (depth 1 complete, deeper levels pair one deep child with a leaf in both child orders) x all 16 target lists over {{a,b,c,d}} x 5 attachment levels (file level: depth <= 2 in quick), a quarter of the files writing `cfg (` / `cfg<newline>(`; thorough adds all {exhaustive_d4} depth-4 expressions over the reduced alphabet at type level (5 % at the other levels); plus un-guarded untagged enums whose only data variants are rejected (6 guards x 15 target lists: a unit enum remains); plus 98 two-level cases (a guarded field inside a guarded struct variant / struct, 7 x 7 guards) x 16 target lists; plus {n_random} random depth-4 expressions incl. two deep children and 1-3 cfg attributes per element, and {n_cli} trees through the real binary with --target-os a b / -t a b / --target-os=a,b / a repeated name in the middle / an empty entry / one -t per name / no option; decision read from generated TypeScript; a cell is distinct by (level, expression shape, |T|, expected decision)"
         ),
         assumptions: vec![
             "the oracle is the rule as worded in the property: N = names under any not(...), P = the others, over all cfg attributes of the element".into(),
